@@ -143,7 +143,7 @@ def call(px, st, name, t, args, fid, fn):
         if r[0] == 'adt' and r[2] == 'Ok':
             return [(st, r)]
         if r[0] == 'adt' and r[2] == 'Err':
-            return [(s2, ('adt', r[1], 'Err', (rv,))) for s2, rv in px.call_closure(st, args[1], [r[3][0]])]
+            return [(s2, rv if rv == ('PANIC',) else ('adt', r[1], 'Err', (rv,))) for s2, rv in px.call_closure(st, args[1], [r[3][0]])]
         return [(st, ('map_err', r, args[1]))]
     if n.endswith('result::Result::<T, E>::ok'):
         return [(st, ('ok', args[0]))]
